@@ -262,6 +262,21 @@ def run(tier):
     # the guards of Sync on the model: TLC checks that the specification's Sync is refused exactly under its triggers
     # and that a refused Sync changes nothing (ArrayMC explores SyncResult with force_empty etc. fixed; the guard
     # operators EmptyInterlock/ZeroInterlock/small parity are exercised through the traces below)
+    # the lock: Lock.tla - one lock file whose path is a function of the configuration alone excludes two holders for every
+    # interleaving of three commands, saves and lost copies; the unstable choice "first copy that exists" does not (sanity of the
+    # model: TLC must find that counterexample, it is the flow the harness plays with the first copy lost)
+    r = vlib.run_tlc("Lock", cfg="Lock.cfg", workers=2, timeout=300, tag="C14-lock")
+    if r.error and not r.violated:
+        raise vlib.ToolFailure("TLC on Lock.tla: %s\n%s" % (r.error, r.out[-1500:]))
+    cov["mc"].append({"cfg": "Lock.cfg (3 commands, 3 content copies, lock file beside the first configured copy)", "distinct": r.distinct,
+                      "generated": r.generated, "violated": r.violated})
+    if r.violated:
+        v.violation("TLC: %s violated on Lock.tla" % r.violated, replay_obj={"kind": "tlc-trace", "trace": r.trace}, signature="lock-model")
+    r2 = vlib.run_tlc("Lock", cfg="Lock_byexistence.cfg", workers=2, timeout=300, tag="C14-lock-byexistence")
+    if r2.violated != "MutualExclusion":
+        raise vlib.ToolFailure("Lock.tla no longer shows that a lock path chosen among the existing copies admits two holders")
+    cov["mc"].append({"cfg": "Lock_byexistence.cfg (the unstable choice; counterexample expected)", "distinct": r2.distinct, "found": True})
+    mc_states = r.distinct + r2.distinct
     s0 = vlib.seed() * 1000
     n = 10 if quick else 80
     # every fifth array has a reduced hash size, every seventh a parity split over several files (content format 3)
@@ -289,7 +304,7 @@ def run(tier):
                 trig[l["args"]["trigger"].split(":")[0]] = trig.get(l["args"]["trigger"].split(":")[0], 0) + 1
             if l["e"] == "Sync" and l["args"].get("expect_refused"):
                 trig["modelled-interlock"] = trig.get("modelled-interlock", 0) + 1
-    cov.update({"states": states, "transitions": states, "traces_validated_against_impl": len(scs),
+    cov.update({"states": states + mc_states, "transitions": states + r.generated + r2.generated, "traces_validated_against_impl": len(scs),
                 "traces_accepted_without_finding": accepted, "refusals_by_trigger": trig,
                 "samples": [{"seed": s["seed"], "conf": s["conf"], "steps": s["steps"]} for s in scs[:2]],
                 "rule": "each history applies every trigger (all files of a disk missing / rewritten, zero-size file, parity too small or "
